@@ -77,7 +77,11 @@ def spell_date(ts, how):
 
 
 def run(chk):
-    from ombott.static_stream import _file_iter_range
+    try:
+        from ombott.static_stream import _file_iter_range
+    except ImportError:
+        # the streaming loop is a private function: without it the loop is exercised only through whole responses
+        _file_iter_range = None
     rng = random.Random(chk.seed * 13 + 17)
     thorough = chk.tier == 'thorough'
     jobs = []
@@ -189,7 +193,9 @@ def run(chk):
                 recs.append(record(link, tdata, os.stat(target).st_mtime, h, ims, method, 2 ** 20))
                 chk.count(1, ('symlink', h, ims, method))
     # _file_iter_range with small buffers (the streaming loop itself)
-    for _ in range(3000 if thorough else 500):
+    if _file_iter_range is None:
+        chk.drift('C17: ombott.static_stream._file_iter_range is gone: the streaming loop is not driven with small buffers in this run')
+    for _ in range((3000 if thorough else 500) if _file_iter_range is not None else 0):
         L = rng.choice([0, 1, 2, 5, 9, 17, 64])
         off = rng.randint(0, L + 2)
         n = rng.randint(0, L + 3)
